@@ -196,7 +196,8 @@ def minimise(d):
 
 
 class Builder(object):
-    def __init__(self, is_bytes, flags, N, hooks=None, mode='full'):
+    def __init__(self, is_bytes, flags, N, hooks=None, mode='full', asserts='error'):
+        self.asserts = asserts      # 'error' | 'over' (treat look-arounds as true: superset language)
         self.is_bytes = is_bytes
         self.flags = flags
         self.N = N
@@ -336,6 +337,8 @@ class Builder(object):
                     cur = nfa.new()   # nothing may follow: dead continuation
                 else:
                     raise Unsupported('anchor %s' % an)
+            elif opn in ('ASSERT', 'ASSERT_NOT') and self.asserts == 'over':
+                self.used_over = True
             else:
                 raise Unsupported('regex construct %s' % opn)
         return cur
@@ -376,11 +379,13 @@ def parse(pattern, flags=0):
         raise AnalysisError('pattern %r does not parse: %s' % (pattern, e))
 
 
-def sub_dfa(items, is_bytes, flags, N):
-    b = Builder(is_bytes, flags, N)
+def sub_dfa(items, is_bytes, flags, N, asserts='error', tail=False):
+    b = Builder(is_bytes, flags, N, asserts=asserts)
     s = b.nfa.new()
-    e = b.build(items, s, False)
-    return determinise(b.nfa, s, {e})
+    e = b.build(items, s, tail)
+    d = determinise(b.nfa, s, {e, b.nfa.locked_final} if tail else {e})
+    d.over_approximated = getattr(b, 'used_over', False)
+    return d
 
 
 def from_pattern(pattern, flags=0, mode='full', hooks=None):
